@@ -69,7 +69,8 @@ struct Reading : StampedReadingBase {
     , const Calibration& cal
 #endif
   ) const override {
-    counter()++;
+    int k = counter()++;
+    vsym::out("sens" + std::to_string(k), vsym::S(1.0));
     vsym::note_val("S", sid); vsym::note_val("V", v);
     StateAndVariance r;
     r.state = vsym::ufn("FsS", {sv.state, sv.covariance, sid, v});
